@@ -89,6 +89,11 @@ def build_index(m):
             ih = cls.from_labels(m['labels'], name=m['name'], depth_reference=depth)
         return ih
     cls = getattr(sf, m['cls'])
+    if m['dtype'] == 'auto':
+        # the positional index a default-constructed container gets (labels are the positions, no label map)
+        from static_frame.core.util import PositionsAllocator
+        assert list(m['labels']) == list(range(len(m['labels'])))
+        return cls(PositionsAllocator.get(len(m['labels'])), loc_is_iloc=True, name=m['name'], dtype=np.dtype(np.int64))
     arr = _array(m['labels'], m['dtype'])
     if getattr(cls, '_DTYPE', None) is not None:
         return cls(arr, name=m['name'])
@@ -162,7 +167,8 @@ def labels_eq(ia, ib, opts, top=False):
     unknown_or = (lambda cond: None if cond else True)
     if opts['compare_name'] and ia['name'] != ib['name']:
         parts.append(False if top else None)
-    same_dtype = ia['dtype'] == ib['dtype'] and ia.get('inner') == ib.get('inner')
+    _dt = lambda d: 'int64' if d == 'auto' else d      # an auto-generated positional index holds int64 labels
+    same_dtype = _dt(ia['dtype']) == _dt(ib['dtype']) and ia.get('inner') == ib.get('inner')
     if opts['compare_dtype'] and not same_dtype:
         parts.append(False if (top and ia['dtype'] != 'IH') else None)
     if opts['compare_class'] and ia['cls'] != ib['cls']:
@@ -236,7 +242,7 @@ def diff_aspects(ma, mb):
         else:
             cells(ia['labels'], ib['labels'], what)
         if ia['dtype'] != ib['dtype'] or ia.get('inner') != ib.get('inner'):
-            out.add(f'{what}-dtype')
+            out.add(f'{what}-dtype' if {ia['dtype'], ib['dtype']} != {'auto', 'int64'} else f'{what}-auto-vs-explicit')
         if ia['name'] != ib['name']:
             out.add(f'{what}-name')
         if ia['cls'] != ib['cls']:
@@ -481,8 +487,21 @@ def fam_index(kind):
         'O': (idx_model(['a', None, NAN], 'object', name='n'), 'z', None, 'IndexGO'),
         'M': (idx_model([np.datetime64('2020-01-01'), _nat(), np.datetime64('2020-01-03')], 'datetime64[D]', cls='IndexDate', name='n'),
               np.datetime64('1999-01-01'), None, 'Index'),
+        'auto': (idx_model([0, 1, 2], 'auto', name='n'), 9, None, 'IndexGO'),
     }[kind]
     fam = [('base', dict(kind='Index', cls=base['cls'], name='n', index=base))]
+    if kind == 'auto':
+        def add_(tag, im):
+            fam.append((tag, dict(kind='Index', cls=im['cls'], name=im['name'], index=im)))
+        add_('explicit-same-labels', dict(base, dtype='int64'))
+        add_('label', dict(base, dtype='int64', labels=[9, 1, 2]))
+        add_('order', dict(base, dtype='int64', labels=[2, 1, 0]))
+        add_('class', dict(base, cls='IndexGO'))
+        add_('name', dict(base, name='other'))
+        add_('name-none', dict(base, name=None))
+        add_('shorter', dict(base, labels=[0, 1]))
+        add_('name+explicit', dict(base, dtype='int64', name='other'))
+        return fam
 
     def add(tag, im):
         fam.append((tag, dict(kind='Index', cls=im['cls'], name=im['name'], index=im)))
@@ -569,7 +588,7 @@ def families(tier):
     for k in ('fff', 'ifU', 'OMb', 'iii'):
         out[f'Frame-{k}'] = lambda k=k: fam_frame(k, tier)
     out['Frame-hier'] = fam_frame_hier
-    for k in 'UifOM':
+    for k in ('U', 'i', 'f', 'O', 'M', 'auto'):
         out[f'Index-{k}'] = lambda k=k: fam_index(k)
     for k in ('Ui', 'Uf', 'depth3'):
         out[f'IH-{k}'] = lambda k=k: fam_hier(k)
